@@ -26,6 +26,9 @@ Definition hfun (kind : Z) (kw : kwargs) : rv :=
   | 5 => RT [RT [RZ c; RZ (c + 1)]; RT [RZ (c + 2); RZ (c + 3)]]
   | 6 => RT [RZ c; RS c; RT [RZ c; RZ c; RZ c]]
   | 7 => RT [RB (c mod 2); RT [RT [RZ c; RZ c]]]
+  (* a result that is a sequence of ONE element stays one *)
+  | 9 => RT [RZ c]
+  | 10 => RT [RZ c]
   (* labelled outputs: k scalar outputs (11..13), k array outputs over an internal axis (21..23) *)
   | 11 => RZ (10 * c)
   | 12 => RT [RZ (10 * c); RZ (10 * c + 1)]
